@@ -18,6 +18,10 @@ pub struct Finding {
     pub what: String,
     #[serde(default)]
     pub witness: String,
+    /// every tag listed here must be among the violation's tags; entries with
+    /// tags are matched against *minimised* violations only
+    #[serde(default)]
+    pub requires_tags: Vec<String>,
 }
 
 #[derive(Serialize, Deserialize, Clone, Debug, Default)]
@@ -52,9 +56,15 @@ impl Findings {
         Ok(Findings { list })
     }
 
-    pub fn matches(&self, prop: &str, v: &Violation) -> Option<&Finding> {
+    pub fn matches(&self, prop: &str, v: &Violation, minimised: bool) -> Option<&Finding> {
         for (f, re) in &self.list {
             if f.property != prop || f.oracle != v.oracle {
+                continue;
+            }
+            if !f.requires_tags.is_empty() && !minimised {
+                continue;
+            }
+            if !f.requires_tags.iter().all(|t| v.tags.iter().any(|x| x == t)) {
                 continue;
             }
             if !f.culprit_kinds.iter().any(|k| k == &v.culprit_kind || k == "*") {
